@@ -108,7 +108,7 @@ def table_replay(pid, wd, path, parts):
         if not os.path.exists(src):
             continue
         shutil.copy(src, wd)
-        rc, out = run([binp, sub, "-in", f"{module}.cases.ndjson", "-out", "obs.ndjson"], wd)
+        rc, out = run([binp, sub, "-in", f"{module}.cases.ndjson", "-out", "obs.ndjson", "-world", "world.json"], wd)
         if rc != 0:
             raise Inconclusive(out[-2000:])
         t = tlc(wd, f"{module}Trace.tla", cfg=f"{module}Trace_quick.cfg", timeout=1800, outfile=f"{module}.trace.out")
@@ -176,18 +176,23 @@ def c03_check(pid, tier, seed, replay=None):
         cleanup(wd)
 
 
-def simple_table_check(parts, assumptions, required=()):
+def simple_table_check(parts, assumptions, required=(), world=False):
     """Check made of decision tables only. parts: list of dict(module, sub, prefixes, sig, need, label)."""
     def chk(pid, tier, seed, replay=None):
         t0 = time.time()
         wd = workdir(pid)
         try:
             if tier == "replay":
+                if world:
+                    tlc(wd, "OPEmitWorld.tla", cfg="OPEmitWorld.cfg", workers=1, timeout=120)
                 return table_replay(pid, wd, replay, [(p["module"], p["sub"], p["prefixes"]) for p in parts])
             binp = go_build(wd)
+            if world:
+                tlc(wd, "OPEmitWorld.tla", cfg="OPEmitWorld.cfg", workers=1, timeout=120)
             tbs, viols = [], []
             for p in parts:
-                tb = table_run(pid, p["module"], p["sub"], tier, seed, wd, p["prefixes"], p["sig"], need=p.get("need"), binp=binp, label=p.get("label"))
+                tb = table_run(pid, p["module"], p["sub"], tier, seed, wd, p["prefixes"], p["sig"], need=p.get("need"), binp=binp, label=p.get("label"),
+                               harness_args=["-world", "world.json"] if world else ())
                 for k in p.get("required", ()):
                     if not tb["coverage"].get(k):
                         raise Inconclusive(f"vacuous table run ({p['module']}): no observation {k}; have {sorted(tb['coverage'])[:40]}")
@@ -347,7 +352,33 @@ def c09_need(o):
     return [f"{o['c']['kind']}:{o['o']['class']}"]
 
 
+def c19_sig(o):
+    c = o["c"]
+    if c["kind"] == "config":
+        f, k = c["flags"], c["caps"]
+        return (f"config:{c['router']}:{c['issuer']}:{c['endpoints']}:" + "".join(x[0] if f[x] else "-" for x in ("s256", "post", "pkjwt", "refresh", "reqobj"))
+                + ":" + "".join(x if k[x] else "-" for x in ("cc", "te", "dev")))
+    return f"{c['kind']}:{c.get('form', c.get('doc'))}:{c.get('insecure', '')}"
+
+
+def c19_need(o):
+    c = o["c"]
+    if c["kind"] == "config":
+        return [f"config:{c['router']}:{c['issuer']}:{c['endpoints']}", f"token:{o['o']['issuerToken'][:5]}", f"reqobj:{o['o']['reqobjOK']}", f"s256:{o['o']['s256OK']}"]
+    return [f"{c['kind']}:{o['o']['accepted']}"]
+
+
 CHECKS = {
+    "C19": simple_table_check(
+        [dict(module="Discovery", sub="tbl-discovery", prefixes=("C19.",), sig=c19_sig, need=c19_need, label="discovery table",
+              required=["config:P:host:default", "config:L:host:custom", "config:P:path:custom", "config:L:path:default", "config:P:dynamicHost:default", "config:L:dynamicHost:custom",
+                        "token:same", "reqobj:True", "reqobj:False", "s256:True", "issuer:True", "issuer:False", "discover:True", "discover:False"])],
+        ["every configuration is built for real (op.NewProvider with the options / storage capabilities of the case, both routers, the Server router served with the provider's own endpoints)",
+         "'served' = the route does not answer 404 / 405 to the endpoint's method; 'accepted grant' = the token endpoint's answer is not unsupported_grant_type (probed with the credentials of a client registered for that grant)",
+         "issuer shapes: host only, with a path component (handler mounted under that path), derived from the request host; endpoint tables: defaults, every endpoint moved to a custom relative path; "
+         "absolute custom endpoint URLs are outside the statement (they are not issuer-relative by intention)",
+         "quick: the two base option sets (all on / all off) and their single-option deviations x all capability sets; thorough: all 32 option sets"],
+        world=True),
     "C09": composed_check("C09",
         [dict(module="Handler", sub="tbl-handler", prefixes=("C09.",), sig=c09_sig, need=c09_need, label="malformed-input sweep",
               required=["http:response", "verify:error", "verify:value", "decode:error", "decode:value", "client:error", "client:value"])],
